@@ -4,6 +4,7 @@ package props
 // C15 Idle timeout fires only when idle, and then always.
 
 import (
+	"bytes"
 	"context"
 	"fmt"
 	"net"
@@ -154,22 +155,39 @@ func dialGetInfo(addr string, bound time.Duration) (*varlink.Connection, error) 
 	return nil, last
 }
 
-// lateDialAnswered: after serving ended, a client must not get an answer (dial fails, or EOF / silence).
-func lateDialAnswered(addr string) bool {
+// lateDialAnswered: after serving ended, a client must not get an answer from THIS service (dial fails, or EOF /
+// silence). An answer carrying another vendor string comes from a different process that happens to listen there
+// (another test run binding the wildcard address on the same port): that says nothing about this service.
+func lateDialAnswered(addr, vendor string) bool {
+	answered, foreign := lateDial(addr, vendor)
+	return answered && !foreign
+}
+
+func lateDial(addr, vendor string) (answered, foreign bool) {
 	proto, target := "unix", addr[len("unix:"):]
 	if addr[:4] == "tcp:" {
 		proto, target = "tcp", addr[4:]
 	}
 	c, err := net.DialTimeout(proto, target, 300*time.Millisecond)
 	if err != nil {
-		return false
+		return false, false
 	}
 	defer c.Close()
 	c.SetDeadline(time.Now().Add(150 * time.Millisecond))
 	c.Write(append(append([]byte(nil), sentinelFrame...), 0))
-	buf := make([]byte, 16)
-	n, _ := c.Read(buf)
-	return n > 0
+	var got []byte
+	buf := make([]byte, 4096)
+	for !bytes.Contains(got, []byte{0}) {
+		n, rerr := c.Read(buf)
+		got = append(got, buf[:n]...)
+		if rerr != nil {
+			break
+		}
+	}
+	if len(got) == 0 {
+		return false, false
+	}
+	return true, !bytes.Contains(got, []byte(vendor))
 }
 
 func execSock(c SockCase, bound time.Duration) (err error) {
@@ -185,7 +203,8 @@ func execSock(c SockCase, bound time.Duration) (err error) {
 		return fmt.Errorf("HARNESS: %v", err)
 	}
 	defer os.RemoveAll(dir)
-	svc, err := varlink.NewService("v", "p", "1", "u")
+	vendor := fmt.Sprintf("sock-vendor-%d-%d", os.Getpid(), atomic.AddInt64(&sockCounter, 1))
+	svc, err := varlink.NewService(vendor, "p", "1", "u")
 	if err != nil {
 		return fmt.Errorf("HARNESS: %v", err)
 	}
@@ -205,6 +224,9 @@ func execSock(c SockCase, bound time.Duration) (err error) {
 		} else {
 			if berr := svc.Bind(ctx, addr); berr != nil {
 				cancel()
+				if _, foreign := lateDial(addr, vendor); foreign && c.Kind == "tcp" {
+					return nil // another process listens on this port now (wildcard bind): nothing to learn from this case
+				}
 				return fmt.Errorf("%sBind failed: %v (the same address must be usable again at once)", pre, berr)
 			}
 			go func() { done <- svc.DoListen(ctx, timeout) }()
@@ -242,6 +264,9 @@ func execSock(c SockCase, bound time.Duration) (err error) {
 				case e := <-done:
 					cancel()
 					closeAll()
+					if _, foreign := lateDial(addr, vendor); foreign && c.Kind == "tcp" {
+						return nil // (as above)
+					}
 					return fmt.Errorf("%sthe serving call returned %v before a client could connect", pre, e)
 				default:
 				}
@@ -300,7 +325,7 @@ func execSock(c SockCase, bound time.Duration) (err error) {
 				if gerr != nil {
 					return fail("a connection accepted before Shutdown is no longer served while draining: %v", gerr)
 				}
-				if lateDialAnswered(addr) {
+				if lateDialAnswered(addr, vendor) {
 					return fail("a client connecting after Shutdown returned was answered")
 				}
 				closeAll()
@@ -316,7 +341,7 @@ func execSock(c SockCase, bound time.Duration) (err error) {
 		if n := svc.VerifActiveConnections(); n != 0 {
 			return fmt.Errorf("%sactive-connection count %d after the serving call returned", pre, n)
 		}
-		if lateDialAnswered(addr) {
+		if lateDialAnswered(addr, vendor) {
 			return fmt.Errorf("%sa client connecting after serving ended was answered", pre)
 		}
 		// the endpoint must be released: a dial must fail rather than connect to a listener nobody serves
@@ -326,7 +351,10 @@ func execSock(c SockCase, bound time.Duration) (err error) {
 		}
 		if x, derr := net.DialTimeout(proto, target, 300*time.Millisecond); derr == nil {
 			x.Close()
-			return fmt.Errorf("%safter serving ended a client can still connect to %s: the listening endpoint was not released", pre, addr)
+			// (unless what listens there now is somebody else's service: another process that bound the wildcard address on this port)
+			if _, foreign := lateDial(addr, vendor); !foreign {
+				return fmt.Errorf("%safter serving ended a client can still connect to %s: the listening endpoint was not released", pre, addr)
+			}
 		}
 		if c.Kind == "unixfs" {
 			if _, serr := os.Lstat(target); serr == nil {
